@@ -1,18 +1,180 @@
-import HecsModel.Model.Serde
+import HecsModel.Lemmas.SerdeLive
 /-
-  C14 — Serialising then deserialising a world reproduces it. (interim)
+  C14 — Serialising then deserialising a world reproduces it.
+
+  `serRow`/`serCol` are given in closed form (section 1), the filtered variants serialize exactly the
+  satisfying entities/archetypes (section 2), announced lengths are the real ones (section 3), and
+  deserializing the output gives a world satisfying the invariant in which every live entity of the
+  original has, under its original handle (id and generation), exactly its components of the handled
+  types, and no other handle exists (section 4).
+
+  Property theorems only; proofs live in `Lemmas/Serde*.lean`.
 -/
 namespace Hecs.Props.C14
-open Hecs Hecs.Serde
+open Hecs Hecs.Serde Hecs.SerdeLemmas
 
 /-- the serde form of a handle is its bit pattern, and every handle's pattern is accepted back -/
 theorem entity_bits_roundtrip (e : Entity) (hid : e.id < 4294967296) (hg : 0 < e.gen) (hg' : e.gen < 4294967296) :
-    entityOfBits (bitsOf e) = some e := by
-  unfold entityOfBits bitsOf
-  have h1 : ¬ (e.gen * 4294967296 + e.id ≥ 18446744073709551616) := by omega
-  have h2 : (e.gen * 4294967296 + e.id) / 4294967296 = e.gen := by omega
-  have h3 : (e.gen * 4294967296 + e.id) % 4294967296 = e.id := by omega
-  have h4 : ¬ e.gen = 0 := by omega
-  simp [h1, h2, h3, h4]
+    entityOfBits (bitsOf e) = some e :=
+  SerdeLemmas.entity_bits_roundtrip e hid hg hg'
+
+/-! ### 1. what the row serializer writes
+
+`restrict H cs = cs.filter (fun c => H.contains c.1)`;
+`pairsH H cs = H.filterMap (fun t => (lookupComp t cs).map (t, ·))`;
+`rowEntry H (e, cs) = (num (bitsOf e), map [(num t, num v) | (t, v) ← pairsH H cs])`. -/
+
+/-- storage order of the serializers is the order of `World.liveRows` -/
+theorem rowsInOrder_eq_liveRows (w : World) : rowsInOrder w = w.liveRows := rfl
+
+/-- one entry per live entity, in storage order -/
+theorem serRow_entries (w : World) (H : List Nat) :
+    serRow w H none = .map (w.liveRows.map (rowEntry H)) :=
+  serRow_none w H
+
+/-- an entry lists the handled types the entity has, in the context's order `H` … -/
+theorem entry_types (H : List Nat) (cs : List Comp) :
+    (pairsH H cs).map (·.1) = H.filter (fun t => (cs.map (·.1)).contains t) :=
+  pairsH_keys H cs
+
+/-- … with the entity's own values: up to order, exactly the restricted component list -/
+theorem entry_comps (H : List Nat) (hH : H.Nodup) (cs : List Comp) (hn : (cs.map (·.1)).Nodup) :
+    (pairsH H cs).Perm (restrict H cs) :=
+  pairsH_perm hH hn
+
+/-! ### 2. `serialize_satisfying::<Q>` -/
+
+/-- row format: exactly the entries of the entities whose type list satisfies `q` -/
+theorem serialize_satisfying_exact_row (w : World) (H : List Nat) (q : Q) :
+    serRow w H (some q) =
+      .map ((w.liveRows.filter (fun p => q.sat (p.2.map (·.1)))).map (rowEntry H)) :=
+  serRow_some w H q
+
+/-- column format: exactly the blocks of the non-empty archetypes satisfying `q` -/
+theorem serialize_satisfying_exact_col (w : World) (H : List Nat) (q : Q) :
+    serCol w H (some q) =
+      .seq ((w.archs.toList.filter (fun ar => ar.rows.size ≠ 0 && q.sat ar.types)).map (colBlock w H)) :=
+  serCol_some w H q
+
+theorem serCol_blocks (w : World) (H : List Nat) :
+    serCol w H none = .seq ((w.archs.toList.filter (fun ar => ar.rows.size ≠ 0)).map (colBlock w H)) :=
+  serCol_none w H
+
+/-- the filter the serializers apply (`access(..).is_some()`) is satisfaction -/
+theorem satisfiesOpt_eq_sat (q : Q) (ts : List Nat) : satisfiesOpt (some q) ts = q.sat ts :=
+  Q.access_isSome_eq_sat q ts
+
+/-! ### 3. announced lengths -/
+
+/-- every block: the announced entity count is the length of the entity list and of every column,
+the announced component count is the length of the id list and, plus one, of the component tuple -/
+theorem lengths_honest (w : World) (H : List Nat) (ar : Arch) :
+    ∃ n k ids ents cols, colBlock w H ar = .seq [.num n, .num k, .seq ids, .seq (.seq ents :: cols)] ∧
+      ents.length = n ∧ (∀ c ∈ cols, ∃ xs, c = Tree.seq xs ∧ xs.length = n) ∧
+      ids.length = k ∧ cols.length = k ∧ (Tree.seq ents :: cols).length = k + 1 :=
+  colBlock_lengths w H ar
+
+/-! ### 4. round trips
+
+Hypotheses: `Bounded w` — every live handle has a 32-bit id and a non-zero 32-bit generation;
+`ZstNormal w` — components of the zero-sized types 7, 8, 9 carry serial 0; `SizesFit w H` — `H` and
+every archetype have fewer than 2³² elements (the announced lengths fit their fields). -/
+
+theorem row_roundtrip (w : World) (H : List Nat) (hw : w.Inv) (hH : H.Nodup) (hb : Bounded w)
+    (hz : ZstNormal w) :
+    ∃ w', deRow H (serRow w H none) = .ok w' ∧ w'.Inv ∧
+      (∀ e cs, (e, cs) ∈ w.liveRows → w'.lookup e = some (canon (restrict H cs))) ∧
+      (∀ e, (∀ cs, (e, cs) ∉ w.liveRows) → w'.lookup e = none) :=
+  SerdeLemmas.row_roundtrip w H hw hH hb hz
+
+theorem col_roundtrip (w : World) (H : List Nat) (hw : w.Inv) (hH : H.Nodup) (hb : Bounded w)
+    (hz : ZstNormal w) (hf : SizesFit w H) :
+    ∃ w', deCol H (serCol w H none) = .ok w' ∧ w'.Inv ∧
+      (∀ e cs, (e, cs) ∈ w.liveRows → w'.lookup e = some (canon (restrict H cs))) ∧
+      (∀ e, (∀ cs, (e, cs) ∉ w.liveRows) → w'.lookup e = none) :=
+  SerdeLemmas.col_roundtrip w H hw hH hb hz hf
+
+/-- `liveRows` is `lookup` restricted to the live handles -/
+theorem mem_liveRows_iff (w : World) (hw : w.Inv) (e : Entity) (cs : List Comp) :
+    (e, cs) ∈ w.liveRows ↔ w.isLive e = true ∧ w.lookup e = some cs :=
+  SerdeLemmas.mem_liveRows_iff w hw.core e cs
+
+/-- the round trips over `lookup`: the new world knows exactly the live handles of the original, each
+with its components of the handled types.  Reserved-but-unflushed handles are not serialized. -/
+theorem row_roundtrip_lookup (w : World) (H : List Nat) (hw : w.Inv) (hH : H.Nodup) (hb : Bounded w)
+    (hz : ZstNormal w) :
+    ∃ w', deRow H (serRow w H none) = .ok w' ∧ w'.Inv ∧
+      ∀ e, w'.lookup e = if w.isLive e = true then (w.lookup e).map (restrict H) else none :=
+  SerdeLemmas.row_roundtrip_lookup w H hw hH hb hz
+
+theorem col_roundtrip_lookup (w : World) (H : List Nat) (hw : w.Inv) (hH : H.Nodup) (hb : Bounded w)
+    (hz : ZstNormal w) (hf : SizesFit w H) :
+    ∃ w', deCol H (serCol w H none) = .ok w' ∧ w'.Inv ∧
+      ∀ e, w'.lookup e = if w.isLive e = true then (w.lookup e).map (restrict H) else none :=
+  SerdeLemmas.col_roundtrip_lookup w H hw hH hb hz hf
+
+/-- a context handling every type present keeps everything -/
+theorem restrict_all (H : List Nat) (cs : List Comp) (h : ∀ c ∈ cs, c.1 ∈ H) : restrict H cs = cs :=
+  SerdeLemmas.restrict_all H cs h
+
+/-- a live row's values are already in canonical order, so is their restriction -/
+theorem canon_restrict_live (w : World) (H : List Nat) (hw : w.Inv) (e : Entity) (cs : List Comp)
+    (h : (e, cs) ∈ w.liveRows) : canon (restrict H cs) = restrict H cs := by
+  apply CmdBufLemmas.canon_of_sorted
+  have h1 : cs.Pairwise (fun x y => x.1 < y.1) :=
+    List.pairwise_map.1 ((strictSorted_iff _).1 (liveRows_sorted hw h))
+  exact (h1.filter _).imp (fun h => Nat.le_of_lt h)
+
+/-- one block at a time, from any starting world -/
+theorem block_roundtrip (w w0 : World) (H : List Nat) (hw : w.Inv) (hb : Bounded w) (hz : ZstNormal w)
+    (hf : SizesFit w H) (hH : H.Nodup) (ar : Arch) (har : ar ∈ w.archs.toList) :
+    deArchetype H w0 (colBlock w H ar) =
+      .ok (w0.spawnColumnBatchAt (archBlock w H ar).hs (archBlock w H ar).ts (archBlock w H ar).rows).1 :=
+  deArchetype_colBlock w w0 H hw hb hz hf hH ar har
+
+/-! ### non-vacuity -/
+
+/-- ids 0..3 were allocated; 0 was despawned (a hole), 1 was despawned and reused (generation 2);
+entity 2 carries the zero-sized type 7; entity 3 shares an archetype with 1v2 -/
+def exW : World :=
+  run [.spawn [(1, 10), (2, 20)], .spawn [(1, 11)], .spawn [(7, 0), (1, 12)], .despawn ⟨1, 1⟩,
+       .spawn [(3, 5), (1, 13)], .despawn ⟨0, 1⟩, .spawn [(1, 14), (3, 6)], .despawn ⟨0, 2⟩,
+       .spawnAt ⟨3, 1⟩ [(1, 15), (3, 7)]]
+
+def exH : List Nat := [3, 1, 7]
+
+def probes : List Entity := [⟨0, 1⟩, ⟨0, 2⟩, ⟨0, 3⟩, ⟨1, 1⟩, ⟨1, 2⟩, ⟨2, 1⟩, ⟨3, 1⟩, ⟨4, 1⟩]
+
+def lookups (r : Except String World) (es : List Entity) : Option (List (Option (List Comp))) :=
+  match r with
+  | .ok w => some (es.map w.lookup)
+  | .error _ => none
+
+example : probes.map exW.lookup =
+    [none, none, none, none, some [(1, 13), (3, 5)], some [(1, 12), (7, 0)], some [(1, 15), (3, 7)], none] := by
+  decide +kernel
+
+-- both formats give back every handle with its components (all types handled) …
+example : lookups (deRow exH (serRow exW exH none)) probes = some (probes.map exW.lookup) := by decide +kernel
+example : lookups (deCol exH (serCol exW exH none)) probes = some (probes.map exW.lookup) := by decide +kernel
+-- … and only the handled ones under a smaller context
+example : lookups (deRow [1] (serRow exW [1] none)) probes =
+    some [none, none, none, none, some [(1, 13)], some [(1, 12)], some [(1, 15)], none] := by decide +kernel
+example : lookups (deCol [1] (serCol exW [1] none)) probes =
+    some [none, none, none, none, some [(1, 13)], some [(1, 12)], some [(1, 15)], none] := by decide +kernel
+-- the filtered variant: only entities having type 3
+example : lookups (deRow exH (serRow exW exH (some (.read 3)))) probes =
+    some [none, none, none, none, some [(1, 13), (3, 5)], none, some [(1, 15), (3, 7)], none] := by decide +kernel
+example : lookups (deCol exH (serCol exW exH (some (.read 3)))) probes =
+    some [none, none, none, none, some [(1, 13), (3, 5)], none, some [(1, 15), (3, 7)], none] := by decide +kernel
+
+theorem exW_inv : exW.Inv := World.inv_run _ (by decide)
+
+-- the hypotheses of the round-trip theorems hold of the example world
+example : ∃ w', deCol exH (serCol exW exH none) = .ok w' ∧ w'.Inv ∧
+      (∀ e cs, (e, cs) ∈ exW.liveRows → w'.lookup e = some (canon (restrict exH cs))) ∧
+      (∀ e, (∀ cs, (e, cs) ∉ exW.liveRows) → w'.lookup e = none) :=
+  col_roundtrip exW exH exW_inv (by decide) (by unfold Bounded; decide +kernel)
+    (by unfold ZstNormal; decide +kernel) (by unfold SizesFit; decide +kernel)
 
 end Hecs.Props.C14
